@@ -5,7 +5,7 @@ import json
 import logging
 import os
 
-from mc import refs, seams
+from mc import refs, seams  # noqa
 
 VERIF = os.environ.get("VERIF_ROOT") or os.path.dirname(os.path.dirname(os.path.abspath(__file__)))
 WORDS = ["alpha", "bravo7", "Core-rtr", "delta.x"]   # fillers for \S+ slots (benign)
